@@ -31,6 +31,13 @@ FIXTURE_EXPECT = ["c15.link"]
 def set_prov(prog, n):
     """(source collection leaf, mapped element field leaf) of a set/vec built as coll.iter().map(|x| x.f).collect()"""
     n = strip(n)
+    if n[0] == "proj" and strip(n[1])[0] == "call" and len(n[2]) == 1:
+        # a field of a struct of id sets built by a helper (`ModelIds::new(model).spaces`)
+        from ..cfgq import inline_helper
+        inl = inline_helper(prog, strip(n[1]))
+        if inl is not None and strip(inl)[0] == "agg" and n[2][0].lstrip(".") in strip(inl)[2]:
+            a = strip(inl)
+            n = strip(a[3][a[2].index(n[2][0].lstrip("."))])
     if n[0] != "call" or short_callee(n[1]) != "collect":
         return None
     ch = iter_chain(n)
@@ -83,36 +90,45 @@ def classify_cond(node, val, sets):
     return ("other", show(n)[:100], val)
 
 
-def collect_pushes(root_scope):
-    """all Vec::push calls in the function and its closures: (scope, bb, term, receiver node, value node, conditions)"""
+def collect_sites(prog, check_fn):
+    """every `Warning { .. }` literal built while check() runs - in check itself, its closures, or the helper functions of its module (each
+    instantiated per call site) - with the conditions under which it is built: (scope, bb, literal node, conditions, where it goes)"""
+    from ..cfgq import scope_instances
+    mod = check_fn.path.rsplit("::", 1)[0]
     out = []
-    for sc in root_scope.all_scopes():
-        for b, t in sc.body.calls():
-            nm = callee_name(t) or ""
-            if short_callee(nm) == "push" and "vec::Vec" in nm:
-                recv = strip(sc.operand(t["args"][0]))
-                val = strip(sc.operand(t["args"][1]))
-                conds = []
-                for (s2, d, n, tk) in sc.conditions(b):
-                    conds.append((n, tk))
-                out.append((sc, b, t, recv, val, conds))
+    for (sc, ctx_conds, chain) in scope_instances(prog, check_fn, lambda f: f.path.startswith(mod + "::") and f.crate == check_fn.crate):
+        for b, i, s in sc.body.statements():
+            if s["s"] == "assign" and s["rv"]["r"] == "agg" and s["rv"].get("adt", "").endswith("::Warning"):
+                val = strip(sc.rvalue(s["rv"]))
+                conds = list(ctx_conds) + [(n, tk) for (s2, d, n, tk) in sc.conditions(b)]
+                # destination: pushed onto a vector of this scope, or returned (Some(..)/value) to the caller
+                dest = None
+                from ..dataflow import uses_of
+                from ..mir import pl_local
+                for u in uses_of(sc.body, pl_local(s["p"])):
+                    if u[0] == "term" and u[2]["t"] == "call" and short_callee(callee_name(u[2]) or "") == "push":
+                        dest = leaf_name(strip(sc.operand(u[2]["args"][0])))
+                out.append((sc, b, s, val, conds, dest))
     return out
 
 
 def analyse_checker(ctx, check_fn, links, rule="c15.link", bridge=True):
     prog = ctx.prog
-    root = Scope(prog, check_fn)
     sets = prog
-    pushes = collect_pushes(root)
-    found = {}
     results = []
-    for (sc, b, t, recv, val, conds) in pushes:
-        loc = sc.fn.loc(t.get("ln"))
+    for (sc, b, s, val, conds, dest) in collect_sites(prog, check_fn):
+        loc = sc.fn.loc(s.get("ln"))
         canon = []
         for (n, tk) in conds:
             bv = bool_taken(tk)
-            canon.append(classify_cond(n, bv, sets))
-        # payload
+            c = classify_cond(n, bv, sets)
+            # the discriminant of an Option matched as Some(x): same as is_some
+            if c[0] == "discr" and tk in ("1", "else:0"):
+                c = ("is_some", c[1], True)
+            elif c[0] == "discr" and tk in ("0", "else:1"):
+                c = ("is_some", c[1], False)
+            if c not in canon:
+                canon.append(c)
         idn = None
         if val[0] == "agg" and "id" in val[2]:
             idf = strip(val[3][val[2].index("id")])
@@ -120,7 +136,7 @@ def analyse_checker(ctx, check_fn, links, rule="c15.link", bridge=True):
                 idn = leaf_name(strip(idf[3][0]))
             else:
                 idn = "not-Some:" + show(idf)[:40]
-        results.append((canon, idn, loc, leaf_name(recv), sc))
+        results.append((canon, idn, loc, dest, sc))
     return sets, results
 
 
@@ -130,7 +146,7 @@ def run(ctx):
     sets, results = analyse_checker(ctx, check, CHECKER_LINKS)
     # the obligations are phrased over `warnings.push(Warning {..})` sites and their dominating conditions; a checker written in another
     # style (helpers returning Option<Warning>, collected through an iterator) is not understood: cannot decide, rather than a finding per link
-    ctx.require(len(results) >= 1, "check(): no `Vec::push(Warning {..})` site found: the checker's structure is not the one this rule reads (cannot decide)")
+    ctx.require(len(results) >= 1, "check(): no `Warning {..}` literal found in check(), its closures or the helpers of its module: the checker's structure is not the one this rule reads")
     nsets = {c[1] for r in results for c in r[0] if c[0] == "member" and c[1]}
     ctx.floor("c15.sets", "distinct id sets tested", len(nsets), 4)
     ctx.floor("c15.link", "warning pushes", len(results), 6)
@@ -145,6 +161,11 @@ def run(ctx):
             mem = [c for c in canon if c[0] == "member" and c[2] == want_elem]
             if mem:
                 cands.append((idx, canon, idn, loc, mem))
+        # the warning *about* this link is the one built when the membership fails; sites that merely run after the test passed are
+        # other links' warnings with an extra guard (reported there)
+        neg = [c for c in cands if any(m[3] is False for m in c[4])]
+        if len(neg) == 1:
+            cands = [(idx, canon, idn, loc, [m for m in mem if m[3] is False]) for (idx, canon, idn, loc, mem) in neg]
         if len(cands) != 1:
             ctx.violation("c15.link", key, "expected exactly one warning guarded by a membership test of %s, found %d" % (want_elem, len(cands)), check.loc())
             continue
@@ -165,7 +186,12 @@ def run(ctx):
             if not iss:
                 problems.append("optional link tested without is_some guard")
         if others:
-            problems.append("extra guard conditions %s" % (others,))
+            extra_links = [c[2] for c in others if c[0] == "member" and c[3] is True]
+            if extra_links and len(extra_links) == len(others):
+                problems.append("the warning is produced only when %s resolve(s): an element with several broken links gets a warning for the first one only"
+                                % " and ".join(extra_links))
+            else:
+                problems.append("extra guard conditions %s" % (others,))
         if idn != "model.%s[].id" % owner:
             problems.append("warning id is %s, expected Some(element.id)" % idn)
         if problems:
@@ -211,8 +237,9 @@ def run(ctx):
     # all pushes go to the returned vector
     rn = returned_nodes(check.body)
     rname = leaf_name(strip(rn[0][1])) if len(rn) == 1 else None
-    bad = [r for r in results if r[3] != rname]
-    if bad or rname is None:
+    # (warnings built in helpers that return them are handed to the caller by value, not pushed)
+    bad = [r for r in results if r[3] is not None and r[3] != rname]
+    if bad or (rname is None and any(r[3] is not None for r in results)):
         ctx.violation("c15.ret", "c15.ret|warnings", "warnings are pushed to %s but the function returns %s" % ({r[3] for r in results}, rname), check.loc())
     else:
         ctx.ok("c15.ret", "c15.ret|warnings", "all pushes target the returned vector `%s`" % rname, check.loc())
